@@ -47,6 +47,8 @@ def gen_leaf(rng, common, kinds, leaf_kind=None, small=False):
             shape = ()
         s = gen.gen_const_struct(rng, shape=shape, kind=kind)
     s["as"] = "poly_T" if lk == "poly" and len(s["shape"]) >= 2 and rng.random() < .15 else lk
+    if lk == "ndarray" and rng.random() < .25:
+        s["as"] = "ndarray_ro"      # a read-only array operand
     if lk == "list" and kind in ("float", "complex") and rng.random() < .6:
         s["as"] = "list_mixed"
     if s["as"] == "poly" and len(s["names"]) >= 2 and rng.random() < .15:
